@@ -81,7 +81,7 @@ theorem Micro.preserves_Base {U : Universe} {Vp : Nat → Nat → Nat → Prop} 
         simp [increase, newCkpt, h1]
     · show (s.tree.addChild _ _).ckpt.status ≠ .growing
       rw [Tree.addChild_root]; exact hroot
-  | addSig tgt o src srcH tn hf ho h1 h2 h3 hsp hv =>
+  | addSig tgt o src srcH tn shd hshd hshh hf ho h1 h2 h3 hsp hv =>
     refine ⟨he, hHU', ?_, hhd, ?_⟩
     · intro x hx
       rcases Tree.mem_update hx with hx | ⟨r, hr, rfl⟩
